@@ -97,7 +97,7 @@ type c17B64 struct {
 
 func init() {
 	register(&Prop{ID: "C17", Run: c17Run,
-		Rule: "manifest: Secret/ConfigMap with generated metadata/extra fields (incl. the other kind's section names), 0-5 text items (strings: multi-line, unicode, numeric-looking, YAML-special; and non-string scalars) and 0-4 binary items (0-40 arbitrary bytes, incl. empty), serialised with yaml.v3, loaded through ManifestFromBytes/Reader/File, written, reloaded, then 0-8 Update/Remove edits on both facades, written and reloaded again. embedded: a YAML/JSON document embedded in an item (or absent), or properties spread over the string items, opened through k8s.YamlDoc/JsonDoc/Properties or NewBuilder()...Open()/Create() on a temp file, then 1-4 rounds of (0-6 AddValueAt/RemoveAt edits, Save through the SAME Document handle, reopen and compare), in a third of the cases with a second manifest of either kind alive that is written and reloaded after every Save. interleave: 2-3 manifests of either kind alive at once, a random schedule of load / Update / Remove / write(+reload) steps over them, every write compared with that manifest's own expected items, sections and non-data fields, every step followed by a look at the items of all alive manifests. malformed: YAML assembled from pools of bad kinds / sections / values. b64: random bytes and mutated encodings against encoding/base64. A manifest case is non-trivial when it has at least one item; an embedded case when it has at least one edit; an interleave case when two manifests with at least one item between them are alive at a write; distinct = distinct canonical case JSON.",
+		Rule: "manifest: Secret/ConfigMap with generated metadata/extra fields (incl. the other kind's section names), 0-5 text items (strings: multi-line, unicode, numeric-looking, YAML-special; and non-string scalars) and 0-4 binary items (0-40 arbitrary bytes, incl. empty), serialised with yaml.v3, loaded through ManifestFromBytes/Reader/File, written, reloaded, then 0-8 Update/Remove edits on both facades, written and reloaded again. embedded: a YAML/JSON document embedded in an item (or absent), or properties spread over the string items, opened through k8s.YamlDoc/JsonDoc/Properties or NewBuilder()...Open()/Create() on a temp file, then 1-4 rounds of (0-6 AddValueAt/RemoveAt edits, Save through the SAME Document handle, reopen and compare), in a third of the cases with a second manifest of either kind alive that is written and reloaded after every Save. savefault: the embedded histories again, with at least one round whose Save fails in the embedded-document encoder (a +Inf/-Inf/NaN float leaf put into a JsonDoc document; a user-supplied encoder given to NewBuilder().Encoder(...) that returns an error before or after doing the standard encoder's work), attempted 1-3 times: after every failed Save the file is read back and must still be the previous manifest (loads, same item maps, same fields outside the data sections, embedded document reopens as last saved); the cause is then repaired and the same handle saves, with the usual clauses. interleave: 2-3 manifests of either kind alive at once, a random schedule of load / Update / Remove / write(+reload) steps over them, every write compared with that manifest's own expected items, sections and non-data fields, every step followed by a look at the items of all alive manifests. malformed: YAML assembled from pools of bad kinds / sections / values. b64: random bytes and mutated encodings against encoding/base64. A manifest case is non-trivial when it has at least one item; an embedded case when it has at least one edit; a savefault case when at least one Save failed; an interleave case when two manifests with at least one item between them are alive at a write; distinct = distinct canonical case JSON.",
 		Assumptions: []string{
 			"yaml.v3 round-trips the generated manifest bodies (strings are pre-filtered by an independent Marshal/Unmarshal round trip; no timestamps, no NaN)",
 			"embedded YAML documents hold int/string/bool/null scalars, embedded JSON documents string/bool/float64/null scalars (the codecs' number normalisation is C01's concern); keys are path-safe",
@@ -300,6 +300,10 @@ func c17Run(c *Ctx) {
 	for i := 0; i < c.N(1200); i++ {
 		c.Tick()
 		c.Do("interleave", c17GenInter(r))
+	}
+	for i := 0; i < c.N(450); i++ {
+		c.Tick()
+		c.Do("savefault", c17GenFault(r))
 	}
 	for _, y := range c17MalformedFixed {
 		c.Do("malformed", c17Malformed{Yaml: y})
@@ -660,6 +664,8 @@ func c17Eval(c *Ctx, kind string, raw []byte) {
 		c17EvalEmbedded(c, raw)
 	case "interleave":
 		c17EvalInter(c, raw)
+	case "savefault":
+		c17EvalFault(c, raw)
 	case "malformed":
 		c17EvalMalformed(c, raw)
 	case "b64":
